@@ -31,11 +31,39 @@ class _Kernel:
         self.log.add("close", fd)
 
 
-def check_ensure_running(alive: List[bool], spawn_ok: List[bool], reap_fails: List[bool]) -> bool:
+def check_ensure_running(alive: List[bool], spawn_ok: List[bool], reap_fails: List[bool], from_thread: bool = False) -> bool:
     """
     pre: 1 <= len(alive) <= 3 and len(spawn_ok) == len(alive) and len(reap_fails) == len(alive)
     post: _
     """
+    if not from_thread:
+        return _ensure_running(alive, spawn_ok, reap_fails)
+    # the same from a helper thread (executor manager thread, user thread): the signal mask is per thread and the
+    # tracker inherits the mask of the thread that spawns it, so SIGINT/SIGTERM must be blocked across the spawn
+    # whichever thread (re-)launches the tracker
+    import threading
+    alive = [True if a else False for a in alive]
+    spawn_ok = [True if a else False for a in spawn_ok]
+    reap_fails = [True if a else False for a in reap_fails]
+    out = []
+
+    def run():
+        t = threading.Thread(target=lambda: out.append(_ensure_running(alive, spawn_ok, reap_fails)), name="helper")
+        t.start()
+        t.join()
+    try:
+        from crosshair.tracers import NoTracing, is_tracing
+        if is_tracing():
+            with NoTracing():
+                run()
+        else:
+            run()
+    except ImportError:
+        run()
+    return out == [True]
+
+
+def _ensure_running(alive, spawn_ok, reap_fails):
     import signal
     log = Log()
     k = _Kernel(log)
